@@ -84,6 +84,8 @@ type methodTarget struct {
 	IntAcc map[string][2]string // "<M>" -> {parameter name, result Lean type}: niladic method `<M>` called on a value of a Go integer type (`hotstuff.View`)
 	// extensions for the timeout rules (proof agent S21: Simple / Aggregate VerifySyncInfo)
 	Acc2 map[string]string // "<T>.<M>" -> Lean type R: the niladic accessor `x.<M>()` with results (value, bool) on an opaque value x : T, a parameter `T_M : T → R × Bool`
+	// extension for Authority.VerifyAnyQC (proof agent S22)
+	Own2 map[string][2]string // "<M>" -> {argument Lean type, result Lean type R}: `v, err := recv.<M>(arg)`, a method of the receiver that is NOT translated, is the parameter function `<M> : A → R × Bool`
 	// A Lean type `Option X` (the Go type `*X` of a RESULT only): `nil` is `none`, `&v` for a local v : X is `some v`.
 }
 
@@ -158,19 +160,22 @@ var methodTargets = []methodTarget{
 	// `hotstuff.GetGenesis()` is the parameter `genesis`; `error` is its presence.
 	{File: "security/cert/auth.go", Recv: "Authority", Fields: []string{},
 		Comp:    []string{"config", "blockchain"},
-		Methods: []string{"VerifyPartialCert", "VerifyQuorumCert", "VerifyTimeoutCert"}, Out: "Authority",
-		TypeVars: []string{"QC", "TC", "PC", "Blk", "Hash", "Sig", "IDs", "Bytes"},
+		Methods: []string{"VerifyPartialCert", "VerifyQuorumCert", "VerifyTimeoutCert", "VerifyAnyQC"}, Out: "Authority",
+		TypeVars: []string{"QC", "TC", "PC", "Blk", "Hash", "Sig", "IDs", "Bytes", "Msg", "AggQC"},
 		Types: map[string]string{"hotstuff.QuorumCert": "QC", "hotstuff.TimeoutCert": "TC", "hotstuff.PartialCert": "PC",
-			"hotstuff.View": "Int", "error": "Bool"},
+			"hotstuff.View": "Int", "error": "Bool", "*hotstuff.ProposeMsg": "Msg"},
 		Accessors: map[string]string{"View": "Int", "BlockHash": "Hash", "Signature": "Sig", "Participants": "IDs", "Len": "Int",
-			"Hash": "Hash", "ToBytes": "Bytes"},
-		Ext:    map[string][2]string{"blockchain.Get": {"Hash", "Blk"}},
-		ExtFn:  map[string][]string{"config.QuorumSize": {"Int"}},
-		PkgVal: map[string][2]string{"hotstuff.GetGenesis": {"genesis", "Blk"}},
-		Own:    map[string][]string{"Verify": {"Sig", "Bytes", "Bool"}},
+			"Hash": "Hash", "ToBytes": "Bytes", "QuorumCert": "QC", "Sig": "Sig"},
+		FieldAcc: map[string]string{"Msg.Block": "Blk", "Msg.AggregateQC": "AggQC"},
+		Ext:      map[string][2]string{"blockchain.Get": {"Hash", "Blk"}},
+		ExtFn:    map[string][]string{"config.QuorumSize": {"Int"}, "config.HasAggregateQC": {"Bool"}},
+		PkgVal:   map[string][2]string{"hotstuff.GetGenesis": {"genesis", "Blk"}},
+		// VerifyAnyQC (S22): its calls of VerifyQuorumCert / VerifyAggregateQC (the latter not translated) are parameters
+		Own:    map[string][]string{"Verify": {"Sig", "Bytes", "Bool"}, "VerifyQuorumCert": {"QC", "Bool"}},
+		Own2:   map[string][2]string{"VerifyAggregateQC": {"AggQC", "QC"}},
 		IntAcc: map[string][2]string{"ToBytes": {"View_ToBytes", "Bytes"}},
-		Ptr:    map[string]string{"Blk": "Blk_nil", "Sig": "Sig_nil", "IDs": "IDs_nil"},
-		Deq:    []string{"Blk", "Hash", "Sig", "IDs"},
+		Ptr:    map[string]string{"Blk": "Blk_nil", "Sig": "Sig_nil", "IDs": "IDs_nil", "Msg": "Msg_nil", "AggQC": "AggQC_nil"},
+		Deq:    []string{"Blk", "Hash", "Sig", "IDs", "Msg", "AggQC"},
 		Params: []string{"(Blk_nil : Blk)", "(Sig_nil : Sig)", "(IDs_nil : IDs)", "(genesis : Blk)",
 			"(QC_BlockHash : QC → Hash)", "(QC_View : QC → Int)", "(QC_Signature : QC → Sig)",
 			"(TC_View : TC → Int)", "(TC_Signature : TC → Sig)",
@@ -178,7 +183,10 @@ var methodTargets = []methodTarget{
 			"(Sig_Participants : Sig → IDs)", "(IDs_Len : IDs → Int)",
 			"(Blk_Hash : Blk → Hash)", "(Blk_View : Blk → Int)", "(Blk_ToBytes : Blk → Bytes)",
 			"(View_ToBytes : Int → Bytes)",
-			"(config_QuorumSize : Int)", "(blockchain_Get : Hash → Blk × Bool)", "(Verify : Sig → Bytes → Bool)"}},
+			"(config_QuorumSize : Int)", "(blockchain_Get : Hash → Blk × Bool)", "(Verify : Sig → Bytes → Bool)",
+			"(Msg_nil : Msg)", "(AggQC_nil : AggQC)", "(Msg_Block : Msg → Blk)", "(Msg_AggregateQC : Msg → AggQC)",
+			"(Blk_QuorumCert : Blk → QC)", "(AggQC_Sig : AggQC → Sig)", "(AggQC_View : AggQC → Int)",
+			"(config_HasAggregateQC : Bool)", "(VerifyQuorumCert : QC → Bool)", "(VerifyAggregateQC : AggQC → QC × Bool)"}},
 	// Simple.VerifySyncInfo / Aggregate.VerifySyncInfo (Props/C07RuleGen).  No modelled field.  The sync info is an
 	// opaque value SI whose accessors TC / QC / AggQC have results (value, present); the certificate checks of the
 	// authority are parameters (true = an error; VerifyAggregateQC returns the high QC and an error); the result
@@ -965,6 +973,19 @@ func (t *mtr) twoResults(call *ast.CallExpr, c *mctx, ind string) (pre, val, ok2
 			t.use(fmt.Sprintf("(%s : %s → %s × Bool)", fn, sig[0], sig[1]))
 			arg := t.expr(call.Args[0])
 			if t.tg.Params != nil && t.vtype[arg] != sig[0] {
+				t.fail(call, "argument type of "+fn)
+			}
+			pre = t.flushChecks(ind) + fmt.Sprintf("%slet r' := (%s %s)\n", ind, fn, arg)
+			return pre, "r'.1", "r'.2", sig[1], true
+		}
+	}
+	if id, isId := se.X.(*ast.Ident); isId && id.Name == t.recv && t.tg.Own2 != nil && len(call.Args) == 1 {
+		// `v, err := recv.<M>(arg)` for a method of the receiver that is a parameter function
+		if sig, found := t.tg.Own2[se.Sel.Name]; found {
+			fn := se.Sel.Name
+			t.use(fmt.Sprintf("(%s : %s → %s × Bool)", fn, sig[0], sig[1]))
+			arg := t.expr(call.Args[0])
+			if t.vtype[arg] != sig[0] {
 				t.fail(call, "argument type of "+fn)
 			}
 			pre = t.flushChecks(ind) + fmt.Sprintf("%slet r' := (%s %s)\n", ind, fn, arg)
